@@ -82,4 +82,7 @@ def is_nonempty_str(txt: Optional[str]) -> bool:
 def hash_comp_cls(comp_cls: Type["Component"]) -> str:
     full_name = get_import_path(comp_cls)
     comp_cls_hash = md5(full_name.encode()).hexdigest()[0:6]
-    return comp_cls.__name__ + "_" + comp_cls_hash
+    # The result is embedded in HTML comments and URLs that are parsed with ASCII-only regexes,
+    # so keep only the ASCII word characters of the class name (the md5 part keeps it unique).
+    comp_cls_name = re.sub(r"[^a-zA-Z0-9_]", "_", comp_cls.__name__)
+    return comp_cls_name + "_" + comp_cls_hash
